@@ -21,6 +21,71 @@ def _startswith_literals(fn, what):
     return out
 
 
+def _stmt_shape(fn):
+    """parameters and statements of a small function, one string per statement (docstring dropped)"""
+    args = [a.arg for a in fn.args.args]
+    body = [n for n in fn.body if not (isinstance(n, ast.Expr) and isinstance(n.value, ast.Constant))]
+    return ['(' + ', '.join(args) + ')'] + [
+        ('if ' + u(n.test) + ': ' + '; '.join(u(x) for x in n.body) +
+         (' else: ' + '; '.join(u(x) for x in n.orelse) if n.orelse else ''))
+        if isinstance(n, ast.If) else u(n) for n in body]
+
+
+def _lean_chars(s):
+    def ch(c):
+        if c == "'":
+            return "'\\''"
+        if c == '\\':
+            return "'\\\\'"
+        if not (32 <= ord(c) < 127):
+            raise TieBroken('non-printable character in a docstring-literal constant', repr(s))
+        return "'%s'" % c
+    return '[' + ', '.join(ch(c) for c in s) + ']'
+
+
+def _docstring_literal_rule(putils, g):
+    """safe_literal_eval: the slice length of `value[:n].lower()`, the letter compared with
+    `first_two[0]`, the two-letter prefixes of the `in (...)` test; _clean_docstring_literal and its
+    two callers as statement lists (a source of another shape is written out as it is: the
+    Gen-tied theorem then fails to build)"""
+    where = 'jedi/parser_utils.py:safe_literal_eval'
+    fn = putils.find('safe_literal_eval')
+    slices = [n for n in ast.walk(fn) if isinstance(n, ast.Subscript) and isinstance(n.slice, ast.Slice)]
+    sl = _one(slices, where + ' slice')
+    if sl.slice.lower is not None or sl.slice.step is not None or not isinstance(sl.slice.upper, ast.Constant) \
+            or not isinstance(sl.slice.upper.value, int) or u(sl.value) != 'value':
+        raise TieBroken(where + ': slice shape', u(sl))
+    g.define('docLitSlice', 'Nat', str(sl.slice.upper.value), where + ' value[:n]')
+    test = _one([n for n in ast.walk(fn) if isinstance(n, ast.If)], where + ' if').test
+    if not (isinstance(test, ast.BoolOp) and isinstance(test.op, ast.Or) and len(test.values) == 2):
+        raise TieBroken(where + ': guard is not `A or B`', u(test))
+    a, b = test.values
+    ok_a = isinstance(a, ast.Compare) and len(a.ops) == 1 and isinstance(a.ops[0], ast.Eq) \
+        and u(a.left) == 'first_two[0]' and isinstance(a.comparators[0], ast.Constant) \
+        and isinstance(a.comparators[0].value, str) and len(a.comparators[0].value) == 1
+    ok_b = isinstance(b, ast.Compare) and len(b.ops) == 1 and isinstance(b.ops[0], ast.In) \
+        and u(b.left) == 'first_two' and isinstance(b.comparators[0], ast.Tuple) \
+        and all(isinstance(e, ast.Constant) and isinstance(e.value, str) for e in b.comparators[0].elts)
+    if not (ok_a and ok_b):
+        raise TieBroken(where + ': guard shape', u(test))
+    g.define('docLitFFirst', 'Char', _lean_chars(a.comparators[0].value)[1:-1], where + " first_two[0] == 'f'")
+    g.define('docLitFPairs', 'List (List Char)',
+             '[' + ', '.join(_lean_chars(e.value) for e in b.comparators[0].elts) + ']', where + " first_two in ('fr', 'rf')")
+    g.define('safeLiteralEval', 'List String', lean_list(_stmt_shape(fn)), where + ' (parameters, statements in order)')
+    fn = putils.find('_clean_docstring_literal')
+    g.define('cleanDocstringLiteral', 'List String', lean_list(_stmt_shape(fn)),
+             'jedi/parser_utils.py:_clean_docstring_literal (parameters, statements in order)')
+    callers = []
+    for name in ('clean_scope_docstring', 'find_statement_documentation'):
+        f = putils.find(name)
+        callers += ['%s: %s' % (name, u(n)) for n in ast.walk(f) if isinstance(n, ast.Return) and n.value is not None
+                    and not (isinstance(n.value, ast.Constant))]
+    g.define('docLiteralCallers', 'List String', lean_list(callers),
+             'jedi/parser_utils.py:clean_scope_docstring / find_statement_documentation (non-constant returns)')
+    for d in ('_clean_docstring_literal', 'find_statement_documentation'):
+        g.fp(putils, d)
+
+
 def generate(repo, g):
     names = Src(repo, 'jedi/inference/names.py')
     sig = Src(repo, 'jedi/inference/signature.py')
@@ -111,6 +176,7 @@ def generate(repo, g):
     fn = classes.find('BaseName._get_docstring_signature')
     strs = [n.value for n in ast.walk(fn) if isinstance(n, ast.Constant) and isinstance(n.value, str)]
     g.define('docSignatureJoin', 'List String', lean_list(strs), 'jedi/api/classes.py:BaseName._get_docstring_signature')
+    _docstring_literal_rule(putils, g)
     for s_, d in [(names, '_ActualTreeParamName.get_kind'), (names, 'BaseTreeParamName.to_string'),
                   (names, 'BaseTreeParamName.get_public_name'), (names, '_ParamMixin._kind_string'),
                   (names, 'TreeNameDefinition.py__doc__'),
